@@ -176,7 +176,9 @@ LEVEL_TEXT = ("Machine-checked Lean 4 theorems about an executable model of UriD
               "strings: every input ends in a value or in one of the named std::exception classes (invalid_argument only for empty "
               "input; std::stoll can never report 'no conversion'), every slice (host, service) is a contiguous part of the input, "
               "getaddrinfo receives NUL-free C strings cut out of the input, the host never contains '/', any ':'/'/'-free text of any "
-              "length is accepted as a host, any text starting with '/' is rejected - all definitions are total compositions of "
+              "length is accepted as a host, any text starting with '/' is rejected, and the plain-scan dissection equals a declarative reading of the "
+              "three original regular expressions with ECMAScript priorities for every input (dissect_refines_regex: fix F4 changed no "
+              "outcome) - all definitions are total compositions of "
               "single-pass list primitives (termination for every length by construction). Tied to /repo on every run: generated "
               "well-formed and malformed inputs (NUL, non-ASCII, separators only, nested brackets/schemes, line terminators everywhere) "
               "and length ladders to 10^5 / 10^7 run on the real constructors on 64-128 KiB thread stacks (ladders in forked children, "
